@@ -18,12 +18,21 @@ def sig_of(rej, scn):
     return "C19:%s:%s%s" % (rej.get("who"), why, extra)
 
 
+def blank_line_at(cur):
+    """Index (in the pg-init text) of a terminator that stands directly after another one and before a character."""
+    t = [x for x in cur if x["ev"] == "pg-init"][0]["text"]
+    for i in range(1, len(t) - 1):
+        if t[i]["nl"] and t[i - 1]["nl"] and not t[i + 1]["nl"]:
+            return i
+    return None
+
+
 def binding_selftest(c, specs, td, rejected):
     """Corrupt one recorded field of accepted scenarios: TLC must reject each copy (guards against a vacuous trace
     spec)."""
     import concurrent.futures as cf
     import vcheck
-    want = {"dyn": None, "dyn2": None, "dynstale": None, "lst": None, "pg": None}
+    want = {"dyn": None, "dyn2": None, "dynstale": None, "lst": None, "pg": None, "pgblank": None}
     cur = []
     with open(os.path.join(td, "shard00.ndjson")) as f:
         for line in f:
@@ -47,6 +56,8 @@ def binding_selftest(c, specs, td, rejected):
                 want["lst"] = list(cur)
             elif e["ev"] == "pg-full" and want["pg"] is None and e["pan"] == "" and len(cur) > 40:
                 want["pg"] = list(cur)
+            elif e["ev"] == "pg-full" and want["pgblank"] is None and e["pan"] == "" and blank_line_at(cur) is not None:
+                want["pgblank"] = list(cur)   # the text has an empty line between two lines and the screen shows it
             if all(v is not None for v in want.values()):
                 break
     variants = []
@@ -70,6 +81,8 @@ def binding_selftest(c, specs, td, rejected):
     mutate("lst", "*", lambda v: v[-1]["items"].reverse())          # the screen no longer shows the items in this order
     mutate("pg", "offset-not-clamped", lambda v: [x for x in v if x["ev"] == "pg-draw"][-1].__setitem__("off", 40))
     mutate("pg", "*", lambda v: [x for x in v if x["ev"] == "pg-init"][0]["text"].append({"g": 1, "w": 1, "nl": False}))   # a character the screen never showed
+    # the text says there is no empty line there: the screen shows a row that no line of the text occupies
+    mutate("pgblank", "empty-row-not-in-text", lambda v: [x for x in v if x["ev"] == "pg-init"][0]["text"].pop(blank_line_at(v)))
     d = os.path.join(c.scratch, "selftest")
     os.makedirs(d, exist_ok=True)
 
@@ -121,13 +134,15 @@ def main(c):
         "applications clear the window before drawing a widget (as the library's examples do)",
         "builder-driven list: the widget learns which items exist only by asking its builder, so an index left beyond the "
         "items by an item replacement or by a set-cursor beyond the end is tolerated until the next draw and must be in "
-        "range from that draw on; item heights >= 1",
+        "range from that draw on; item heights 1..65535 (the framework's 16-bit height), also when the items drawn span "
+        "more than 65535 rows together",
         "selected-item visibility is demanded for viewports with at least one row (and one column for the classic list), at "
         "the draw that follows a selection change and at every further draw of the same viewport with no operation in "
         "between; not when the user scrolled or the items were replaced after selecting, nor at a draw that itself had to "
         "move the selection; 'inside the viewport' = at least one row of the item is a viewport row",
-        "pager: windows at least as wide as the widest grapheme; an extra EMPTY row after an exactly full row or after a "
-        "final terminator is tolerated (nothing is lost)",
+        "pager: windows at least as wide as the widest grapheme and graphemes that occupy at least one cell; the rows are "
+        "the lines of the text wrapped greedily (a line k window widths wide occupies k rows, its terminator none); only "
+        "whether a terminator at the very end of the text opens a last empty row is left to the pager",
     ]
     deep = c.tier != "quick"
     if not c.replay:
@@ -163,5 +178,7 @@ def main(c):
              "(count incl. 0 and nil, heights, gap, gutter) x operation history (incl. set-cursor beyond the items and "
              "replacements that remove the selected item) interleaved with draws at varying viewport sizes and repeated "
              "draws; bounded-exhaustive histories over the operation alphabet plus seeded random long histories; pager: all "
-             "texts over {a, b, wide, newline} up to a length x widths x scroll histories; every operation and every draw "
+             "texts over {a, b, wide, newline} up to a length x widths x scroll histories, lines one short of / exactly / one over "
+             "one and two window widths with narrow and wide characters at the edge x {no terminator, LF, CRLF} x what "
+             "follows; every operation and every draw "
              "is judged by ListRel / Pager; distinct = distinct scenario descriptor")
